@@ -1412,7 +1412,7 @@ class Torrent():
             # large numbers and raises OverflowError for huge ones
             exp_piece_count = -(-int(info['length']) // info['piece length'])
             if piece_count != exp_piece_count:
-                raise error.MetainfoError(f'Expected {exp_piece_count} pieces but there are {piece_count}')
+                raise error.MetainfoError(f'Expected {utils.safe_repr(exp_piece_count)} pieces but there are {piece_count}')
 
             if self.path is not None:
                 # Check if filepath actually points to a file
@@ -1422,7 +1422,7 @@ class Torrent():
                 # Check if size matches
                 path_size = utils.real_size(self.path)
                 if path_size != info['length']:
-                    raise error.MetainfoError(f"Mismatching file sizes in metainfo ({info['length']})"
+                    raise error.MetainfoError(f"Mismatching file sizes in metainfo ({utils.safe_repr(info['length'])})"
                                               f" and file system ({path_size}): {self.path}")
 
         elif 'files' in info:
@@ -1443,7 +1443,7 @@ class Torrent():
             exp_piece_count = -(-sum(int(fileinfo['length']) for fileinfo in info['files'])
                                 // info['piece length'])
             if piece_count != exp_piece_count:
-                raise error.MetainfoError(f'Expected {exp_piece_count} pieces but there are {piece_count}')
+                raise error.MetainfoError(f'Expected {utils.safe_repr(exp_piece_count)} pieces but there are {piece_count}')
 
             if self.path is not None:
                 # Check if filepath actually points to a directory
@@ -1462,7 +1462,7 @@ class Torrent():
                     # Check if sizes match
                     filesize = utils.real_size(filepath)
                     if filesize != fileinfo['length']:
-                        raise error.MetainfoError(f"Mismatching file sizes in metainfo ({fileinfo['length']})"
+                        raise error.MetainfoError(f"Mismatching file sizes in metainfo ({utils.safe_repr(fileinfo['length'])})"
                                                   f" and file system ({filesize}): {filepath}")
 
         else:
